@@ -1,9 +1,49 @@
 mod c33;
 mod c34;
+mod common;
+mod mgen;
+
+/// Development aid: `vc-swap probe FILE` — convert `Top` of FILE under the
+/// asynchronous C configuration and print what the C backend took.
+fn probe(path: &str) {
+    use veryl_simulator::backend::aot_c::verif_gate;
+    let text = std::fs::read_to_string(path).expect("read");
+    let a = match vdesign::Analyzed::new(&text) {
+        Ok(a) => a,
+        Err(r) => {
+            println!("rejected: {r}");
+            return;
+        }
+    };
+    for w in &a.warnings {
+        println!("warning: {w}");
+    }
+    let cfg = c33::swap_config();
+    verif_gate::set_swap_at(c33::NEVER);
+    let ir = match veryl_simulator::ir::build_ir(&a.ir, "Top".into(), &cfg) {
+        Ok(ir) => ir,
+        Err(e) => {
+            println!("build_ir: {e}");
+            return;
+        }
+    };
+    println!(
+        "whole_comb={} whole_events={} required_comb_passes={} comb_stmts={} jit_stats={:?}",
+        ir.whole_comb.is_some(),
+        ir.whole_events.len(),
+        ir.required_comb_passes,
+        ir.comb_statements.len(),
+        ir.jit_stats()
+    );
+}
 
 fn main() {
     let args: Vec<String> = std::env::args().skip(1).collect();
     let id = args.first().cloned().unwrap_or_default();
+    if id == "probe" {
+        probe(&args[1]);
+        return;
+    }
     vcore::quiet_panics();
     let ctx = vcore::Ctx::new(&id, &args[1.min(args.len())..]);
     match id.as_str() {
